@@ -96,10 +96,25 @@ class TbDut(Elaboratable):
 
 
 def _plain(v):
-    """method result -> list (None -> [])"""
+    """method result -> list (None -> []); anything that is not a method result -> [-99, ...] (an observation
+    the model can never produce: judged as a mismatch, not as a harness failure)"""
     if v is None:
         return []
-    return [int(v.cyc), int(v.a), int(v.cnt)]
+    try:
+        return [int(v.cyc), int(v.a), int(v.cnt)]
+    except Exception:  # noqa: BLE001
+        try:
+            return [-99, int(v)]
+        except Exception:  # noqa: BLE001
+            return [-99]
+
+
+def _val(v):
+    """sampled plain value -> [int]"""
+    try:
+        return [int(v)]
+    except Exception:  # noqa: BLE001
+        return [-98]
 
 
 def run_script(script):
@@ -233,7 +248,7 @@ def run_script(script):
                             out = await trig.until_done()
                         else:
                             out = await trig.until_all_done()
-                        res = [[int(r)] if it[0] == "val" else _plain(r) for it, r in zip(items, out)]
+                        res = [_val(r) if it[0] == "val" else _plain(r) for it, r in zip(items, out)]
                         if len(out) != len(items):
                             res.append([-1])
                     end = int(ctx.get(dut.cyc))
